@@ -11,12 +11,18 @@ and in order.
 from vlib import tg
 from bounded.common import Skip
 from bounded import lib_grammar as L
+from bounded import lib_restructure as R
 
 RULE = ("treebanks of 1..3 trees: every tree shape with n<=N tokens (all discontinuous shapes), "
         "decorated (a) with one label everywhere, (b) cyclic labels, (c) seeded-random labels with unary "
         "nodes and shuffled / reversed stored child order; each tree alone, doubled (counts 2), and in "
         "seeded pairs / triples; plus random trees up to 12 tokens.  One evaluation = one (clause, treebank). "
-        "Non-trivial = treebank with a discontinuous node, a rule count > 1 or a unary node (key = rendering)")
+        "Non-trivial = treebank with a discontinuous node, a rule count > 1 or a unary node (key = rendering).  "
+        "Clause current_structure: one tree, extracted, restructured in place (every well-formedness-keeping "
+        "re-attachment of one token or constituent to another constituent for n<=M, those that change some "
+        "node's gap degree for n=M+1, a seeded sample on random trees; transform.root_attach on every shape) "
+        "and extracted again from the same Tree objects into fresh tables; non-trivial = the change alters "
+        "some node's gap degree")
 
 
 def BOUNDS(ctx):
@@ -24,7 +30,12 @@ def BOUNDS(ctx):
             "decorations_per_shape": 4,
             "treebank_sizes": [1, 2, 3],
             "random_treebanks": 600 if ctx.quick else 6000,
-            "random_max_n": 12}
+            "random_max_n": 12,
+            "all_moves_n": 4 if ctx.quick else 5,
+            "gap_changing_moves_n": 5 if ctx.quick else 6,
+            "gap_changing_moves_cap": None if ctx.quick else 20000,
+            "restructured_random_trees": 150 if ctx.quick else 2000,
+            "moves_per_random_tree": 2}
 
 
 SITES = {
@@ -35,6 +46,7 @@ SITES = {
     "fanout": "trees.grammaranalysis.fan_out",
     "counts_per_label": "trees.grammar.extract",
     "contextfree": "trees.grammaranalysis.is_contextfree",
+    "current_structure": "trees.grammar.extract",
 }
 
 
@@ -178,7 +190,47 @@ def c_contextfree(ctx, specs):
     return None
 
 
-CLAUSES = {"rule_per_node": c_rule_per_node, "vertical_context": c_vertical_context,
+def _against_reference(ctx, t, spec, when):
+    """extract from the Tree objects of `t` into fresh tables; the result must be the reference
+    grammar / lexicon of `spec` (rules, linearizations, vertical contexts with fan-outs, counts)"""
+    gr = ctx.mod("grammar")
+    g, lex = {}, {}
+    gr.extract(t, g, lex)
+    eg, elex = L.ref_extract([spec])
+    a, b = L.flat3(eg), L.flat3(g)
+    if a != b:
+        e, o = L.diff(a, b)
+        return ({"when": when, "grammar": L.show(e)}, {"grammar": L.show(o)})
+    if L.plain_lex(lex) != elex:
+        return ({"when": when, "lexicon": elex}, {"lexicon": L.plain_lex(lex)})
+    return None
+
+
+def c_current_structure(ctx, w):
+    """extraction is faithful to the structure the tree has when extract is called:
+    w = {"spec", "move": {"node": path, "to": path}} (re-attachment through the Tree API, see
+    lib_restructure) or {"spec", "op": "root_attach"} (transform.root_attach, in place).  The tree
+    is extracted, restructured in place (all Tree objects stay alive), extracted again."""
+    trees = ctx.mod("trees")
+    spec = w["spec"]
+    n = len(tg.spec_leaves(spec))
+    t = tg.build(spec, trees)
+    bad = _against_reference(ctx, t, spec, "fresh tree")
+    if bad:
+        return bad
+    if "move" in w:
+        R.move_real(t, w["move"])
+        assert not tg.wf_errors(t, expect_n=n), "the oracle's own move broke the tree"
+        spec2 = R.move_spec(spec, w["move"])
+    else:
+        r = ctx.mod("transform").root_attach(t)
+        if r is not t or tg.wf_errors(t, expect_n=n):
+            raise Skip()                 # root_attach is judged by C12 / C04
+        spec2 = tg.to_spec(t)            # the new structure, read off the children lists
+    return _against_reference(ctx, t, spec2, "after the change")
+
+
+CLAUSES = {"current_structure": c_current_structure, "rule_per_node": c_rule_per_node, "vertical_context": c_vertical_context,
            "lexicon": c_lexicon, "reference_grammar": c_reference_grammar, "fanout": c_fanout,
            "counts_per_label": c_counts_per_label, "contextfree": c_contextfree}
 CLAUSES = {k: L.judged(v) for k, v in CLAUSES.items()}   # exceptions of the code under test are violations
@@ -236,11 +288,57 @@ def treebanks(ctx):
         yield tb[:3]
 
 
+def _changes_after_root_attach(spec):
+    # cheap: root_attach can only change something if the root has a child that is neither
+    # sentence-initial nor sentence-final (the expectation itself is taken from the real tree)
+    n = len(tg.spec_leaves(spec))
+    for c in spec["c"]:
+        ys = [l["n"] for l in tg.spec_leaves(c)]
+        if min(ys) > 1 and max(ys) < n:
+            return True
+    return False
+
+
+def restructurings(ctx):
+    """(witness, non-trivial key) of the clause current_structure"""
+    b = BOUNDS(ctx)
+    rng = ctx.rng
+    capped = 0
+    for n in range(1, b["gap_changing_moves_n"] + 1):
+        for sh in tg.shapes(n):
+            n_int = L.count_internal(sh)
+            # root VROOT (root_attach is a NeGra transformation), cyclic labels below
+            spec = L.label_shape(sh, [["NP", "S", "VP"][i % 3] for i in range(n_int)],
+                                 ["NN", "VB"], ["der", "Hund", "der", "bellt"])
+            yield {"spec": spec, "op": "root_attach"}, \
+                ("ra", tg.spec_str(spec)) if _changes_after_root_attach(spec) else None
+            for mv, ch in R.moves_with_changes(spec):
+                if n > b["all_moves_n"]:
+                    if not ch:
+                        continue
+                    if b["gap_changing_moves_cap"] is not None:
+                        capped += 1
+                        if capped > b["gap_changing_moves_cap"]:
+                            continue
+                yield {"spec": spec, "move": mv}, (tg.spec_str(spec), R.move_str(spec, mv)) if ch else None
+    randoms = list(tg.random_specs(rng, b["restructured_random_trees"], 3, b["random_max_n"], unary_p=0.3,
+                                   shuffle=True, labels=["S", "NP"], pos=["NN", "VB"], words=["a", "b", "C"]))
+    for spec in randoms:
+        yield {"spec": spec, "op": "root_attach"}, \
+            ("ra", tg.spec_str(spec)) if _changes_after_root_attach(spec) else None
+        changing = [mv for mv, ch in R.moves_with_changes(spec) if ch]
+        for mv in rng.sample(changing, min(len(changing), b["moves_per_random_tree"])):
+            yield {"spec": spec, "move": mv}, (tg.spec_str(spec), R.move_str(spec, mv))
+
+
 def generate(ctx):
     for tb in treebanks(ctx):
         k = _key(tb)
         for c in ORDER:
             yield c, tb, k
+    # after the treebanks: the random stream of the clauses above stays what it was
+    for w, k in restructurings(ctx):
+        yield "current_structure", w, k
 
 
 def classify(clause, witness, expected, observed):
